@@ -51,8 +51,9 @@ impl<T: RealNumber> KMeans<T> {
                 row@.len() == m,
                 result.mwf(), result.nrows_spec() == 1, result.ncols_spec() == n,
                 forall|a: int| 0 <= a < i ==> labelled_first_nearest(x, cs, kk, a, #[trigger] result.at(0, a)), //# inv-rows-done-are-labelled-with-their-first-nearest-centroid
-//@before let mut min_dist
+//@loopbody 1
             let ghost dom = kd_dom(x, cs, i as int, kk);
+            let ghost before = result;
             proof { lemma_kd_dom(x, cs, i as int, kk, 0); }
 //@loop 2
                 invariant
@@ -70,18 +71,20 @@ impl<T: RealNumber> KMeans<T> {
                     forall|b: int| 0 <= b < j ==> !lt(#[trigger] kd(x, cs, i as int, b), min_dist), //# inv-no-seen-centroid-is-strictly-closer-than-the-running-minimum
                     // and the centroids before best_cluster are strictly farther
                     forall|b: int| 0 <= b < best_cluster ==> lt(min_dist, #[trigger] kd(x, cs, i as int, b)), //# inv-centroids-before-the-best-are-strictly-farther
-//@after let dist = Euclidian::squared_distance(
+//@loopbody 2
+                let ghost min0 = min_dist;      // the running minimum before this centroid is looked at
+//@loopend 2
                 proof {
                     assert(row@ =~= row_view(x, i as int));
                     assert(dist == kd(x, cs, i as int, j as int));
                     lemma_kd_dom(x, cs, i as int, kk, j as int);
                     lemma_irrefl(dom, dist);
-                    if lt(dist, min_dist) {
+                    if lt(dist, min0) {
                         assert forall|b: int| 0 <= b < j implies lt(dist, #[trigger] kd(x, cs, i as int, b)) by {
                             let e = kd(x, cs, i as int, b);
                             lemma_kd_dom(x, cs, i as int, kk, b);
-                            lemma_total_not_lt(dom, e, min_dist);      // !lt(e, min) ==> ge(e, min) ==> le(min, e)
-                            lemma_lt_le_trans(dom, dist, min_dist, e);
+                            lemma_total_not_lt(dom, e, min0);      // !lt(e, min) ==> ge(e, min) ==> le(min, e)
+                            lemma_lt_le_trans(dom, dist, min0, e);
                         }
                         assert forall|b: int| 0 <= b < j + 1 implies !lt(#[trigger] kd(x, cs, i as int, b), dist) by {
                             let e = kd(x, cs, i as int, b);
@@ -91,7 +94,7 @@ impl<T: RealNumber> KMeans<T> {
                         }
                     }
                 }
-//@before result.set(
+//@loopend 1
             proof {
                 // the scan has seen all k >= 2 centroids: best_cluster is the first nearest centroid of row i
                 let bc = best_cluster as int;
@@ -112,16 +115,12 @@ impl<T: RealNumber> KMeans<T> {
                     }
                 }
                 assert(is_first_nearest(x, cs, kk, i as int, bc)); //# scan-result-is-the-first-nearest-centroid
-            }
-            let ghost before = result;
-//@after result.set(
-            proof {
                 assert(labelled_first_nearest(x, cs, kk, i as int, result.at(0, i as int))); //# stored-label-is-the-conversion-of-the-first-nearest-centroid
                 assert forall|a: int| 0 <= a < i implies labelled_first_nearest(x, cs, kk, a, #[trigger] result.at(0, a)) by {
                     assert(result.at(0, a) == before.at(0, a));
                 }
             }
-//@before Ok(result.to_row_vector
+//@tail
         proof {
             // "first nearest" implies "nearest" (the property-level clause)
             assert forall|a: int| 0 <= a < n implies labelled_nearest(x, cs, kk, a, #[trigger] result.at(0, a)) by {
